@@ -40,6 +40,11 @@ def make(case):
             return
         v0, e0 = base[1], s0.tell()
         ctx.observe("extent", e0)
+        if not eof:
+            try:
+                ctx.check("the stream is left at the start plus the encoded size (len(dumps))", e0 == len(v0.dumps()), f"{e0}")
+            except Exception as e:  # noqa: BLE001
+                ctx.observe("dump", H.classify(e))
         A = (cls.alignment or 1) if cfg["align"] else 1
         q = ctx.int("q", 0, (1 << 20) // A)
         p = q * A
@@ -118,7 +123,19 @@ def make_kinds(case):
     return run
 
 
+DYN_UNION = ["union", "du", [["n", ["int", 1, False], None], ["s", ["arr", ["char"], None], None]], False]
+DYN_UNION2 = ["union", "du2", [["k", ["int", 2, False], None], ["v", ["arr", ["int", 1, False], ["expr", ["bin", "&", ["id", "k"], ["num", 3]]]], None]], False]
+EXTRA_DEFS = [
+    ("dyn-union-member", ["struct", "test", [["h", ["int", 1, False], None], ["u", DYN_UNION, None], ["t", ["int", 2, False], None]], False]),
+    ("dyn-union-first", ["struct", "test", [["u", DYN_UNION, None], ["t", ["int", 1, False], None]], False]),
+]
+
+
 def cases(tier, seed):
+    from vf import defgen as G
+    for label, T in EXTRA_DEFS:
+        for cfg in G.configs():
+            yield {"label": label, "T": T, "cfg": cfg, "nbytes": 12}
     seen = 0
     for c in families.struct_cases(tier, seed):
         if tier == "quick":
